@@ -750,7 +750,17 @@ func (e *Engine) typeAssert(s *State, iv IfaceV, x *ssa.TypeAssert) Val {
 	default:
 		pt, isPtr := at.Underlying().(*types.Pointer)
 		if !isPtr {
-			panic("type assertion of an unknown dynamic value to non-pointer type " + at.String())
+			// a boxed value of unknown origin (what a sync.Map, a container, an any-typed field hands back): whether it
+			// has the asserted type is its type tag; WHAT it is, is not known - an arbitrary value of that type
+			ref := e.ifaceRef(iv)
+			s.defs = append(s.defs, "(declare-fun typeof (Ref) Int)")
+			ok = and(not(iv.IsNil), eq(app("typeof", "Int", ref), Term{S: fmt.Sprint(e.typeID(at)), Sort: "Int", C: big.NewInt(int64(e.typeID(at)))}))
+			val = e.symbolic(s, "unboxed", at)
+			if x.CommaOk {
+				return TupleV{val, ok}
+			}
+			e.oblig(s, "safe.assert", ok)
+			return val
 		}
 		ref := e.ifaceRef(iv)
 		s.defs = append(s.defs, "(declare-fun typeof (Ref) Int)")
